@@ -3,3 +3,5 @@
 
 pub mod arch_model;
 pub mod bin_image;
+pub mod lz;
+pub mod fs_model;
